@@ -264,7 +264,8 @@ def rule_committed_source(ctx):
     ctx.anchor(len(conds) >= 1, "filter of requesting_committed")
     attrs = {x.attr for cnd in conds for x in ast.walk(cnd) if isinstance(x, ast.Attribute)}
     calls_ = [x for cnd in conds for x in ast.walk(cnd) if isinstance(x, ast.Call)]
-    okf = attrs == {"_committed_futs"} and not calls_ and all(not isinstance(x, ast.UnaryOp) for cnd in conds for x in ast.walk(cnd))
+    okf = "_committed_futs" in attrs and attrs <= {"_committed_futs", "state_value"} and all(call_attr(x) == "state_value" for x in calls_) \
+        and all(not isinstance(x, (ast.UnaryOp, ast.BoolOp, ast.Compare)) for cnd in conds for x in ast.walk(cnd))
     ctx.ob(R, frq, frq.node, okf, f"requesting_committed() filters on {sorted(attrs)}: a partition with pending fetch_committed() waiters can be left out, "
                                   "its waiters are never answered and the position update that awaits them never finishes", text="all-waiters-listed")
     ffc = ctx.fn("aiokafka.consumer.subscription_state.TopicPartitionState.fetch_committed")
